@@ -70,6 +70,10 @@ def gen_plan(rng, tier):
         # before the swap, and _replace between deciding and acting
         p['focus_stall'] = [rng.choice([['borrow_connection', '_replace'], ['borrow_connection', '_replace'], ['return_connection', '_replace'],
                                         'borrow_connection', '_replace']), rng.choice([0.1, 0.2, 0.3]), rng.choice([0.02, 0.05, 0.2])]
+        if rng.random() < 0.35:
+            # one deep change point instead: the thread that reaches one given line of one of them sits there for a long while
+            p['focus_stall'] = [rng.choice(['borrow_connection', 'return_connection', 'return_connection', '_replace']), 1.0, rng.choice([0.05, 0.2, 0.5]),
+                                rng.randrange(1, 45), rng.choice([1, 2, 4])]
     elif rng.random() < 0.4:
         # stalled threads: a pool/loop/executor thread is descheduled between two lines of borrow/return/_replace while live requests
         # are answered at about the time the replacement completes
